@@ -1,5 +1,5 @@
 From Coq Require Import NArith Bool List.
-From CppUVerif Require Import C06_Model C06_Proofs C06_Sim C06_Examples.
+From CppUVerif Require Import C06_Model C06_Proofs C06_Sim C06_Examples C06_Wrap.
 Theorem C06_category_exact : C06_category_exact_stmt. Proof. exact category_exact. Qed.
 Print Assumptions C06_category_exact.
 Theorem C06_user_writes_silent : C06_user_writes_silent_stmt. Proof. exact user_writes_silent. Qed.
@@ -16,3 +16,5 @@ Theorem C06_block_removed_after_report : C06_block_removed_after_report_stmt. Pr
 Print Assumptions C06_block_removed_after_report.
 Theorem C06_run_meets_spec : C06_run_meets_spec_stmt. Proof. exact run_meets_spec. Qed.
 Print Assumptions C06_run_meets_spec.
+Theorem C06_wrappers_transparent : C06_wrappers_transparent_stmt. Proof. exact wrappers_transparent. Qed.
+Print Assumptions C06_wrappers_transparent.
